@@ -536,22 +536,26 @@ def closedownNav (s : Sock) (err : Err) : R Sock := do
     | .lastAck | .timeWait | .closed => pure s : R Sock)
   setStateClosed s err
 
+/-- head of the `attempt_send` loop: how many new bytes may be sent now (`nAvailable`), from the congestion window
+    (with Limited Transmit), the peer's window, the bytes in flight and silly-window avoidance -/
+def nAvailableOf (s : Sock) : UInt32 :=
+  let cwnd := if s.dup_acks == 1 || s.dup_acks == 2 then s.cwnd + s.dup_acks.toUInt32 * s.mss else s.cwnd
+  let nWindow := min s.snd_wnd cwnd
+  let nInFlight := s.snd_nxt - s.snd_una
+  let nUseable := if nInFlight < nWindow then nWindow - nInFlight else 0
+  let snd_buffered := s.sbuf.getBuffered
+  let nAvailable : UInt32 :=
+    if snd_buffered < nInFlight.toNat then 0
+    else UInt32.ofNat (min (gsub snd_buffered nInFlight.toNat) s.mss.toNat)
+  if nAvailable > nUseable then (if nUseable * 4 < nWindow then 0 else nUseable) else nAvailable
+
 def slistFuel (l : List SSeg) : Nat := l.foldl (fun a g => a + g.len.toNat + 1) 8
 
 /-- the `while (TRUE)` loop of `attempt_send` -/
 def attemptSendLoop (now : UInt32) : Nat → Sock → SendFlags → R Sock
   | 0, _, _ => fault (.loop "attempt_send")
   | fuel + 1, s, sflags =>
-    let cwnd := if s.dup_acks == 1 || s.dup_acks == 2 then s.cwnd + s.dup_acks.toUInt32 * s.mss else s.cwnd
-    let nWindow := min s.snd_wnd cwnd
-    let nInFlight := s.snd_nxt - s.snd_una
-    let nUseable := if nInFlight < nWindow then nWindow - nInFlight else 0
-    let snd_buffered := s.sbuf.getBuffered
-    let nAvailable : UInt32 :=
-      if snd_buffered < nInFlight.toNat then 0
-      else UInt32.ofNat (min (gsub snd_buffered nInFlight.toNat) s.mss.toNat)
-    let nAvailable :=
-      if nAvailable > nUseable then (if nUseable * 4 < nWindow then 0 else nUseable) else nAvailable
+    let nAvailable := nAvailableOf s
     if sflags = .sfDuplicateAck then do
       let (_, s) ← packet s s.snd_nxt 0 0 0 now
       attemptSendLoop now fuel s .sfNone
